@@ -69,6 +69,7 @@ RunOps(ops, bs, em) ==
       [] o[1] = "throwobj"  -> [oc |-> "fail", cls |-> "thrown", bs |-> bs, em |-> <<>>, pem |-> em]
       [] o[1] = "retcyclic" -> [oc |-> "fail", cls |-> "badreturn", bs |-> bs, em |-> <<>>, pem |-> em]
       [] o[1] = "retcyclicobj" -> [oc |-> "fail", cls |-> "badreturn", bs |-> bs, em |-> <<>>, pem |-> em]
+      [] o[1] = "retnan"    -> [oc |-> "fail", cls |-> "badreturn", bs |-> bs, em |-> <<>>, pem |-> em]
 
 Run(ops, bs) == RunOps(ops, bs, <<>>)
 
